@@ -27,6 +27,7 @@ import Driver.Text
 import Driver.ExecEvents
 import Driver.ReqCtx
 import Driver.ReqLives
+import Driver.ReqFresh
 import Driver.SMTImpl
 import Driver.CodecNFC
 import Driver.Convert
@@ -63,6 +64,7 @@ def main (args : List String) : IO UInt32 := do
   | ["C16WIDE"] => Driver.ExecEvents.main; return 0
   | ["C17CTX"] => Driver.ReqCtx.main; return 0
   | ["C17LIVES"] => Driver.ReqLives.main; return 0
+  | ["C17FRESH"] => Driver.ReqFresh.main; return 0
   | ["C10IMPL"] => Driver.SMTImpl.main; return 0
   | ["C08NFC"] => Driver.CodecNFC.main; return 0
   | ["C03CONV"] => Driver.Convert.main; return 0
